@@ -51,7 +51,12 @@ def eventsJ (ev : Events) : Json :=
     ("admixtures", .arr (ev.admixtures.map merge).toArray)]
 
 def dispatch? (op : String) (j : Json) : Option Json :=
-    if op = "resolve" then some <|
+    if op = "is_identifier" then some <|
+      -- {"names": [str, ...]} ↦ {"ok": [Bool, ...]}: `str.isidentifier` of the Model, name by name
+      match j.getObjValAs? (Array String) "names" with
+      | .ok names => okJ (.arr (names.map (fun s => Json.bool (isIdentifier s))))
+      | .error e => Json.mkObj [("err", "BadRequest"), ("msg", e)]
+    else if op = "resolve" then some <|
       withValue j "doc" (fun v =>
         match resolve v with
         | .error e => errJ e
